@@ -352,7 +352,8 @@ func typedC15(r *CRecord, pkg string) []problem {
 		if s.MiddlewareOps == 0 && s.Explicit && !ogenStatuses[s.Status] && !optionsPreflight {
 			add("a request that does not reach the handler is answered 404/405/401/400/415", fmt.Sprintf("delivery %d: status %d without reaching the handler", i, s.Status))
 		}
-		if k == "append" && s.HandlerCalls > 0 && strings.TrimSpace(r.Call.Fault.Arg) != "" && r.T != nil && jsonBodied(r) {
+		// (a digit, sign, point or exponent letter may simply continue a body that is a bare number: "5" + "1" is 51)
+		if k == "append" && s.HandlerCalls > 0 && strings.TrimSpace(r.Call.Fault.Arg) != "" && !strings.ContainsAny(strings.TrimSpace(r.Call.Fault.Arg)[:1], "0123456789.eE+-") && r.T != nil && jsonBodied(r) {
 			add("trailing data after a JSON body is refused", fmt.Sprintf("delivery %d: the handler ran although %q followed the body", i, r.Call.Fault.Arg))
 		}
 	}
